@@ -123,31 +123,46 @@ def run(ctx, rep):
     fw = ctx.func(AR + ".wait")
     gw = ctx.cfg(fw)
     rep.analysed(fw, gw)
-    whiles = [n for n in A.walk(fw.node) if isinstance(n, ast.While)]
-    rep.floor("R15.4", "wait loops", len(whiles), 1)
-    okc = True
-    try:
-        for ready in (False, True):
-            for expd in (False, True):
-                got = bool(ev(whiles[0].test, {"self._is_ready": ready}, {"self.%s.expired" % TTL: lambda e=expd: e}))
-                okc = okc and got == ((not ready) and (not expd))
-    except CannotEval:
-        okc = False
-    rep.ob("R15.4", "AsyncResult.wait: loops while not ready and not expired", okc, "`while %s`" % A.src(whiles[0].test) if okc
-           else "the wait loop condition `%s` is not (not ready and not expired)" % A.src(whiles[0].test), ctx.loc(whiles[0]),
-           kind="table")
-    raises = [n for n in gw.live if isinstance(n.ast, ast.Raise)]
-    domw = Q.dominators(gw)
-    okr = len(raises) == 1
-    if okr:
-        c = {A.src(x.ast): pol for x, pol in Q.dominating_conditions(gw, raises[0], domw)}
-        nm = A.dotted(raises[0].ast.exc.func) if isinstance(raises[0].ast.exc, ast.Call) else A.dotted(raises[0].ast.exc)
-        okr = c.get("self._is_ready") is False and nm == "AsyncResultTimeout"
-        loop_tests = [n for n in gw.live if n.kind == "test" and n.owner is whiles[0]]
-        okr = okr and any(t.id in domw[raises[0].id] for t in loop_tests)
-    rep.ob("R15.4", "AsyncResult.wait: after the loop raises AsyncResultTimeout exactly when still not ready", okr,
-           "`if not self._is_ready: raise AsyncResultTimeout(...)` after the loop" if okr else
-           "wait() does not raise the timeout error exactly in the not-ready case", ctx.loc(raises[0]) if raises else fw.loc)
+    # model evaluation of wait() (sa/miniinterp.py): the reply arrives during the k-th serve() call (or never), the deadline
+    # passes after the d-th serve() call (or never); time only advances inside serve()
+    from .. import miniinterp as MI
+    bad_w = []
+    rows_w = 0
+    for ready_after in (0, 1, 2, 3, None):
+        for expire_after in (0, 1, 2, 3, None):
+            if ready_after is None and expire_after is None:
+                continue
+            rows_w += 1
+            state = {"_is_ready": ready_after == 0, TTL: "TTL", "_conn": "CONN"}
+            served = []
+
+            def serve(*a, state=state, served=served, ready_after=ready_after):
+                served.append(a)
+                if ready_after is not None and len(served) >= ready_after:
+                    state["_is_ready"] = True
+            hooks = {"self._conn.serve": serve, "self.%s.timeleft" % TTL: lambda: 5.0, "time.time": lambda: 0.0,
+                     "self.%s.expired" % TTL: lambda served=served, expire_after=expire_after:
+                         expire_after is not None and len(served) >= expire_after}
+            try:
+                MI.call_method(fw.node, state, [], {"__calls__": hooks, "__max_iter__": 50})
+                got = "returns"
+            except MI.Raised as r:
+                got = "raises " + r.name
+            # reference
+            n_ref, ready = 0, ready_after == 0
+            while not ready and not (expire_after is not None and n_ref >= expire_after):
+                n_ref += 1
+                if ready_after is not None and n_ref >= ready_after:
+                    ready = True
+            want = "returns" if ready else "raises AsyncResultTimeout"
+            args_ok = all(len(a) >= 1 and a[0] == "TTL" for a in served)
+            if got != want or len(served) != n_ref or not args_ok:
+                bad_w.append("reply during serve #%s, deadline after serve #%s: wait() %s after %d serve() call(s)%s, expected %s after %d"
+                             % (ready_after, expire_after, got, len(served), "" if args_ok else " (not given the result's own expiry)",
+                                want, n_ref))
+    rep.ob("R15.4", "AsyncResult.wait: serves while not ready and not expired, then raises the timeout error iff still not ready",
+           not bad_w, "%d schedules of reply/deadline agree with the reference loop; every serve() gets the result's own expiry" % rows_w
+           if not bad_w else "; ".join(bad_w[:3]), fw.loc, kind="table")
     imp = ctx.module("rpyc.core.async_").imports.get("AsyncResultTimeout")
     rep.ob("R15.4", "AsyncResultTimeout is the package's TimeoutError", imp == "rpyc.lib.compat.TimeoutError",
            "from rpyc.lib.compat import TimeoutError as AsyncResultTimeout" if imp == "rpyc.lib.compat.TimeoutError" else
@@ -216,32 +231,33 @@ def run(ctx, rep):
     rep.ob("R15.5", "Timeout.timeleft: remaining time clamped at 0, None when unlimited", okt,
            "agrees on 6 valuations" if okt else "timeleft is not max(0, deadline - now) / None when unlimited", ft.loc, kind="table")
     fi = ctx.func(T + ".__init__")
-    gi = ctx.cfg(fi)
-    domi = Q.dominators(gi)
-    tp = A.params(fi.node)[1]
-    copies, fresh = {}, {}
-    for n in gi.live:
-        if n.kind == "stmt" and isinstance(n.ast, ast.Assign) and K.self_attr(n.ast.targets[0]):
-            c = {A.src(x.ast): pol for x, pol in Q.dominating_conditions(gi, n, domi)}
-            iscopy = c.get("isinstance(%s, Timeout)" % tp)
-            (copies if iscopy else fresh)[K.self_attr(n.ast.targets[0])] = A.src(n.ast.value)
-    okcp = copies == {"finite": "%s.finite" % tp, "tmax": "%s.tmax" % tp}
-    rep.ob("R15.5", "Timeout(Timeout): copying keeps the absolute deadline (nested serve calls do not restart the clock)", okcp,
-           "finite and tmax copied" if okcp else "copy constructor assigns %s" % copies, fi.loc)
-    okf = "finite" in fresh and "tmax" in fresh
+    rep.analysed(fi)
+
+    def mk_timeout(arg):
+        st = {}
+        MI.call_method(fi.node, st, [arg], {"__calls__": {"time.time": lambda: 100.0},
+                                            "__isinstance__": lambda v, t: isinstance(v, MI.ModelObj) and t == "Timeout"})
+        return st
+    bad_i = []
     try:
-        for tv in (None, -1, 0, 2.5):
-            fe_ = ast.parse(fresh["finite"], mode="eval").body
-            fin = bool(ev(fe_, {tp: tv}))
-            okf = okf and fin == (tv is not None and tv >= 0)
-            te_ = ast.parse(fresh["tmax"], mode="eval").body
-            tm = ev(te_, {tp: tv, "self.finite": fin}, {"time.time": lambda: 100.0})
-            okf = okf and tm == ((100.0 + tv) if fin else None)
-    except (CannotEval, KeyError, SyntaxError):
-        okf = False
-    rep.ob("R15.5", "Timeout(seconds): finite iff a non-negative number; deadline = now + seconds", okf,
-           "finite = %s; tmax = %s" % (fresh.get("finite"), fresh.get("tmax")) if okf else "fresh Timeout assigns %s" % fresh, fi.loc,
-           kind="table")
+        for fin, tmax in ((True, 55.0), (False, None), (True, 0.0)):
+            st = mk_timeout(MI.ModelObj("Timeout", {"finite": fin, "tmax": tmax}))
+            if st.get("finite") != fin or st.get("tmax") != tmax:
+                bad_i.append("Timeout(Timeout(finite=%s, tmax=%s)) -> %s" % (fin, tmax, st))
+        okcp = not bad_i
+        rep.ob("R15.5", "Timeout(Timeout): copying keeps the absolute deadline (nested serve calls do not restart the clock)", okcp,
+               "finite and tmax copied" if okcp else "; ".join(bad_i), fi.loc, kind="table")
+        bad_f = []
+        for tv in (None, -1, -0.5, 0, 2.5, 30):
+            st = mk_timeout(tv)
+            want_fin = tv is not None and tv >= 0
+            want = {"finite": want_fin, "tmax": (100.0 + tv) if want_fin else None}
+            if {"finite": bool(st.get("finite")), "tmax": st.get("tmax")} != want:
+                bad_f.append("Timeout(%r) at t=100 -> %s, expected %s" % (tv, st, want))
+        rep.ob("R15.5", "Timeout(seconds): finite iff a non-negative number; deadline = now + seconds", not bad_f,
+               "6 arguments evaluated" if not bad_f else "; ".join(bad_f[:3]), fi.loc, kind="table")
+    except MI.Raised as r:
+        rep.ob("R15.5", "Timeout(...): construction does not fail", False, "Timeout.__init__ raises %s on a plain argument" % r.name, fi.loc)
 
     # ------------------------------------------------------------------ R15.6
     fs = ctx.func(K.CONN + ".sync_request")
